@@ -336,10 +336,16 @@ func (f *FuncCtx) assign(l ast.Expr, v Val, env *Env) {
 			f.assign(l.X, Val{T: fmt.Sprintf("(mk_%s %s)", srt, strings.Join(fs, " ")), Typ: x.Typ}, env)
 			return
 		}
-		// external struct value: functional update with an axiom for this field only
+		// external struct value: functional update (the other fields keep their values)
 		nv := f.freshVal(x.Typ, "upd")
 		f.emit(fmt.Sprintf("(assert (= %s %s))", f.extField(nv, fl).T, v.T))
-		f.note("field update of an opaque struct value: other fields unconstrained afterwards")
+		if st, ok := x.Typ.Underlying().(*types.Struct); ok {
+			for i := 0; i < st.NumFields(); i++ {
+				if o := st.Field(i); o != fl && o.Name() != fl.Name() {
+					f.emit(fmt.Sprintf("(assert (= %s %s))", f.extField(nv, o).T, f.extField(x, o).T))
+				}
+			}
+		}
 		f.assign(l.X, nv, env)
 	case *ast.IndexExpr:
 		x := f.expr(l.X, env)
